@@ -435,8 +435,13 @@ def condition_relation(ctx, f, if1: ast.If, if2: ast.If) -> int:
     stripping `not` and looking through flag locals; texts must agree and every name must have the same reaching definitions."""
     if if1 is if2:
         return 1
-    t1, n1 = _resolve_flag(ctx, f, if1.test)
-    t2, n2 = _resolve_flag(ctx, f, if2.test)
+    return test_relation(ctx, f, if1.test, if2.test)
+
+
+def test_relation(ctx, f, test1, test2) -> int:
+    """condition_relation for two test expressions (of `if` statements or conditional expressions) of `f`."""
+    t1, n1 = _resolve_flag(ctx, f, test1)
+    t2, n2 = _resolve_flag(ctx, f, test2)
     if norm(t1) != norm(t2):
         return 0
     a = [n for n in ast.walk(t1) if isinstance(n, ast.Name)]
